@@ -1,11 +1,15 @@
 /-
-C10 — tokenization is lossless (structure part): the items produced by the lexer — tokens
-and reported bad lexemes — tile the whole source; between two items there are only line
-splices; nothing is dropped, duplicated or reordered; every bad lexeme is reported.
-The *content* clause (token text = normalised slice) is checked by the correspondence and
-the independent scanner, not yet by a theorem: `content_full` states it.
+C10 — tokenization is lossless.
+Structure: the items produced by the lexer — tokens and reported bad lexemes — tile the whole
+source; between two items there are only line splices; nothing is dropped, duplicated or
+reordered; every bad lexeme is reported.
+Content: the text of every token is a READING (`Spec.Den`, Spec/Content.lean) of its slice of the
+source — every character as itself, trigraphs and digraphs as their standard character, line
+splices as nothing, tabs inside block comments as the blanks up to the next tab stop — and the
+whole input reads as the concatenation of the item texts.
 -/
 import NormModel.Proofs.LexTotal
+import NormModel.Proofs.LexContentStream
 namespace Norm.C10
 open Norm Spec
 
@@ -63,10 +67,61 @@ theorem dict_injective :
     ((Generated.keywords ++ Generated.operators ++ Generated.brackets).map Prod.snd).Nodup := by
   decide +kernel
 
-/-- Full content statement (not yet a theorem; decided per input by the correspondence
-with the independent scanner): the text of every token is the normalisation of its slice. -/
-def content_full (norm : List Char → List Char) (tokenText : Token → List Char) : Prop :=
-  ∀ u src r, lex u src = .ok r → ∀ t ∈ r.tokens, tokenText t = norm (slice src t.start t.stop)
+/-- **Content**: for every source text, the text of every token — its value, or for a token
+without value a spelling that the dictionaries list for its type — is a reading of exactly the
+raw characters of its slice, starting at its true position: characters as themselves, digraphs
+and trigraphs as their standard character, line splices as nothing, and (in block comments
+only) tabs as the blanks up to the next tab stop. -/
+theorem content (u : Uni) (src : List Char) (r : LexResult) (h : lex u src = .ok r) :
+    ∀ t ∈ r.tokens, TokRead src t := by
+  unfold lex at h
+  split at h
+  · cases h
+  · rename_i items sf hrun
+    simp only [Except.ok.injEq] at h
+    subst h
+    intro t ht
+    simp only [List.mem_filterMap] at ht
+    obtain ⟨it, hit, hsome⟩ := ht
+    cases it with
+    | tok t' =>
+      simp only [Item.tok?, Option.some.injEq] at hsome
+      subst hsome
+      exact lexItems_content u src _ _ items sf (good_init src) hrun t' hit
+    | bad c p => simp [Item.tok?] at hsome
+
+/-- **Round trip**: the whole input reads as the concatenation of the texts of the items (tokens
+and reported bad lexemes), in order — no character is dropped, duplicated or reordered; what
+lies between two items are line splices, which read as nothing. -/
+theorem roundtrip (u : Uni) (src : List Char) (r : LexResult) (h : lex u src = .ok r) :
+    ∃ texts : List (List Char), ItemTexts r.items texts ∧ Den true (1, 1) src texts.flatten := by
+  have ht := tiling u src r h
+  have hc := content u src r h
+  have hr : ∀ t, Item.tok t ∈ r.items → TokRead src t := by
+    intro t hit
+    apply hc
+    unfold lex at h
+    split at h
+    · cases h
+    · simp only [Except.ok.injEq] at h
+      subst h
+      simp only [List.mem_filterMap]
+      exact ⟨Item.tok t, hit, rfl⟩
+  obtain ⟨texts, h1, h2⟩ := ht.den (Nat.zero_le _) hr
+  exact ⟨texts, h1, by simpa [visualPos, advPos] using h2⟩
+
+/-- Non-vacuity of the reading relation: `a??<\⏎b` reads as `a{b` (a trigraph, a splice). -/
+example : Den false (1, 1) "a??<\\\nb".toList "a{b".toList := by
+  have h3 : Den false (advPos (advPos (advPos (1, 1) ['a']) ['?', '?', '<']) ['\\', '\n']) ['b'] ['b'] :=
+    Den.single (Den1.plain 'b')
+  have h2 := Den.cons (tabs := false) (advPos (advPos (1, 1) ['a']) ['?', '?', '<']) ['\\', '\n'] [] ['b'] ['b']
+    (Den1.splice ['\\'] (Den1.plain '\\')) h3
+  have ht : Den1 false (advPos (1, 1) ['a']).2 ['?', '?', '<'] ['{'] := by
+    have := Den1.tri (tabs := false) (col := (advPos (1, 1) ['a']).2) ("??<", "{") '{' (by decide) (by decide)
+    simpa using this
+  have h1 := Den.cons (tabs := false) (advPos (1, 1) ['a']) ['?', '?', '<'] ['{'] _ _ ht h2
+  have h0 := Den.cons (tabs := false) (1, 1) ['a'] ['a'] _ _ (Den1.plain 'a') h1
+  simpa using h0
 
 /-- Non-vacuity: splices between tokens are gaps, a bad lexeme is an item. -/
 example : (lex {} "a\\\n@b".toList).toOption.map (fun r => r.items.map (fun i => (i.start, i.stop)))
